@@ -106,6 +106,10 @@ type World struct {
 	Acked    int // number of acknowledged write transactions so far
 	InFlight int // index of the write transaction whose commit is in progress, or -1
 	Phase    string
+	// SnapInfo, if set, supplies the (acked, in-flight) stamps of an image
+	// (scheduled runs: the lock-grant stamp of the latest acknowledged write
+	// transaction and the current event sequence number).
+	SnapInfo func() (int, int)
 
 	Stats Stats
 }
